@@ -5,7 +5,9 @@ Andes main entry point Redirection to main.py
 This makes the package callable with python -m andes
 """
 
+import sys
+
 from andes.cli import main
 
 if __name__ == '__main__':
-    main()
+    sys.exit(main())
